@@ -193,6 +193,44 @@ def alt_inherited(tree):
     return False
 
 
+def hdr_key_qualified(fn):
+    """Soap11.deserialize: in_header_dict = dict([(element.tag, element) for ...]) looked up with
+    "{%s}%s" % (head_class.__namespace__, head_class.__type_name__): True; keyed / looked up by the local name: False"""
+    keyed = looked = None
+    for s in ast.walk(fn):
+        if isinstance(s, ast.Assign) and len(s.targets) == 1 and is_name(s.targets[0], 'in_header_dict'):
+            v = s.value
+            if not (isinstance(v, ast.Call) and is_name(v.func, 'dict') and len(v.args) == 1
+                    and isinstance(v.args[0], (ast.ListComp, ast.GeneratorExp)) and isinstance(v.args[0].elt, ast.Tuple)
+                    and len(v.args[0].elt.elts) == 2):
+                raise TranslateError('Soap11.deserialize: in_header_dict is not dict([(key, element) for ...])')
+            k = v.args[0].elt.elts[0]
+            if attr_chain(k) == ['element', 'tag']:
+                keyed = True
+            elif any(isinstance(c, ast.Call) and isinstance(c.func, ast.Attribute) and c.func.attr in ('split', 'rsplit', 'partition')
+                     for c in ast.walk(k)) or any(isinstance(c, ast.Attribute) and c.attr == 'localname' for c in ast.walk(k)):
+                keyed = False
+            else:
+                raise TranslateError('Soap11.deserialize: unrecognised header dictionary key')
+        if isinstance(s, ast.Assign) and len(s.targets) == 1 and is_name(s.targets[0], 'nsval'):
+            v = s.value
+            if isinstance(v, ast.BinOp) and isinstance(v.op, ast.Mod) and isinstance(v.left, ast.Constant) and v.left.value == '{%s}%s' \
+                    and isinstance(v.right, ast.Tuple) and [attr_chain(e) for e in v.right.elts] == \
+                    [['head_class', '__namespace__'], ['head_class', '__type_name__']]:
+                looked = True
+    if keyed is None:
+        raise TranslateError('Soap11.deserialize: in_header_dict not found')
+    gets = [c for c in ast.walk(fn) if isinstance(c, ast.Call) and attr_chain(c.func) == ['in_header_dict', 'get']]
+    if len(gets) != 1:
+        raise TranslateError('Soap11.deserialize: expected one in_header_dict.get(...)')
+    arg = gets[0].args[0]
+    if is_name(arg, 'nsval') and looked:
+        return keyed
+    if attr_chain(arg) == ['head_class', '__type_name__']:
+        return False
+    raise TranslateError('Soap11.deserialize: unrecognised header lookup key')
+
+
 def generate(repo):
     cm = parse(repo, 'spyne/model/complex.py')
     alt_inh = alt_inherited(cm)
@@ -205,6 +243,7 @@ def generate(repo):
     multi, freq = reader_tests(find_function(xml, ['XmlDocument', 'complex_from_element']))
     xi = bare_index(find_function(xml, ['XmlDocument', 'serialize']), 'result_inst', 'XmlDocument.serialize')
     si = bare_index(find_function(soap, ['Soap11', 'serialize']), 'out_object', 'Soap11.serialize')
+    hq = hdr_key_qualified(find_function(soap, ['Soap11', 'deserialize']))
     out = ['(* GENERATED by harness/translate/xmlwire.py from spyne/protocol/xml.py, spyne/protocol/soap/soap11.py,',
            '   spyne/const/__init__.py and spyne/const/xml.py.  Do not edit. *)',
            'From SpyneV Require Import Base.Prelude Base.Ext.', 'Open Scope Z_scope.', '',
@@ -218,6 +257,8 @@ def generate(repo):
            'Definition xw_freq_bad (n mn : Z) (mo : ext) : bool := %s.' % freq, '',
            '(* ComplexModelMeta.__new__: a class starts from the _type_info_alt tables of its bases *)',
            'Definition xw_alt_inherited : bool := %s.' % ('true' if alt_inh else 'false'), '',
+           '(* Soap11.deserialize: header blocks are matched to the declared classes by {namespace}name (false: by local name) *)',
+           'Definition xw_hdr_qualified : bool := %s.' % ('true' if hq else 'false'), '',
            '(* serialize, non-wrapped body styles: which item of ctx.out_object is written *)',
            '(* None: the whole ctx.out_object sequence is handed to to_parent *)',
            'Definition xw_xml_bare_index : option Z := %s.' % ('None' if xi is None else '(Some %d)' % xi),
